@@ -981,3 +981,34 @@ def value_edges(f, callee, const, rels=("==",)):
             if b.succs[k] is not None and r is not None and r[1] in rels:
                 out.append((b.id, k))
     return out
+
+
+def derived_vars(fn, seeds):
+    """locals whose value is computed from the seed locals: initialised from an expression that mentions one, assigned one, or
+    filled from one by memcpy/memmove/std::copy (destination's root variable).  Name-based within one function."""
+    out = set(seeds)
+    changed = True
+
+    def mentions(text):
+        return any(re.search(r"\b%s\b" % re.escape(v), text or "") for v in out)
+    while changed:
+        changed = False
+        for d in fn.events("decl"):
+            if d.get("var") and d["var"] not in out:
+                txt = ((d.get("init") or {}).get("t") or "") + " " + " ".join(a.get("t") or "" for a in d.get("cargs", []) or [])
+                if mentions(txt) or any(r[2:] in out for r in (d.get("refs") or []) if r.startswith("v:")):
+                    out.add(d["var"])
+                    changed = True
+        for a in fn.events("assign"):
+            v = (a.get("lhs") or {}).get("v")
+            if v and v not in out and mentions((a.get("rhs") or {}).get("t") or ""):
+                out.add(v)
+                changed = True
+        for c in fn.events("call"):
+            if (c.get("callee") or "") in ("memcpy", "memmove", "std::memcpy", "std::memmove", "strncpy", "std::copy", "std::copy_n") and c.get("args"):
+                dst = c["args"][0] if not (c.get("callee") or "").startswith("std::copy") else c["args"][-1]
+                root = dst.get("root") or dst.get("v") or (re.match(r"^\W*(\w+)", dst.get("t") or "") or [None, None])[1]
+                if root and root not in out and any(mentions(x.get("t")) for x in c["args"] if x is not dst):
+                    out.add(root)
+                    changed = True
+    return out
